@@ -2082,7 +2082,7 @@ class PseudoNetCDFFile(PseudoNetCDFSelfReg, object):
                     sliceoi = tuple(sliceoi)
                     point_arrays.append(np.expand_dims(
                         varo[sliceoi], axis=concatax))
-                newvals = np.concatenate(point_arrays, axis=concatax)
+                newvals = np.ma.concatenate(point_arrays, axis=concatax)
             else:
                 # integers keep a length-1 axis; as slices they cannot be
                 # combined by numpy with an index list into fancy indexing
